@@ -47,6 +47,7 @@ def run(ctx):
     g5(ctx, F, D)
     g6(ctx, F, D)
     g7(ctx, F, D)
+    g9(ctx, F, D)
 
 
 # ---------------------------------------------------------------------------
@@ -609,3 +610,63 @@ def g6(ctx, F, D):
     ctx.check("C01.G6", "generation:every-own-piece-on-all-64-squares", ok, fn=FILTER, file=fn["file"],
               what="moves must be generated for every piece of the side to move on all 64 squares",
               found=[(hir.fmt(x[1], 120), x[2]) for x in (hir.guards_of(gens[0], body, sym) or []) if x[0] == "if"] if gens else None)
+
+
+def g9(ctx, F, D):
+    """Board edges and the collecting closure: Position::add yields (row+dr, col+dc) iff both stay in 0..8; the `push` closure of
+    Game::get_moves appends every move it is given; the buffer is cleared first; no move without the mover's king."""
+    fn = F.fn("chess::position::Position::add")
+    env = hir.Env(fn["hir"], F)
+    sym = hir.Sym(env, F)
+    body = fn["hir"]["body"]
+    ctors = [n for n, _ in hir.walk(body) if n.get("k") == "Call" and n.get("ty") == "chess::position::Position"]
+    ok = len(ctors) == 1
+    found = None
+    if ok:
+        c = ctors[0]
+        a0, a1 = hir.canon(sym(c["args"][0])), hir.canon(sym(c["args"][1]))
+        want0 = hir.canon(("bin", "+", ("field", ("var", "self"), "0"), ("field", ("var", "delta"), "0")))
+        want1 = hir.canon(("bin", "+", ("field", ("var", "self"), "1"), ("field", ("var", "delta"), "1")))
+        g = [(hir.fmt(x[1], 200), x[2]) for x in (hir.guards_of(c, body, sym) or []) if x[0] == "if"]
+        need = [("<Idx>::contains(ops::Range{end: 8, start: 0}, %s)" % hir.fmt(sym(c["args"][i]), 80), True) for i in (0, 1)]
+        ok = a0 == want0 and a1 == want1 and all(n in g for n in need) and len(g) == 2
+        found = {"square": (hir.fmt(a0, 60), hir.fmt(a1, 60)), "guards": g}
+    nones = [n for n, _ in hir.walk(body) if n.get("k") == "Path" and (n["to"].get("path") or "").endswith("::None")]
+    ctx.check("C01.G9", "board-edges:Position::add", ok and len(nones) == 1, fn=fn["path"], file=fn["file"], line=fn["span"][0],
+              what="stepping from a square must give (row+drow, col+dcol) exactly when both stay on the board, None otherwise "
+                   "(a wrong edge makes pieces wrap around or stop short)", expected="Some(row+d0, col+d1) iff both in 0..8", found=found)
+    gm = F.fn(FILTER)
+    genv = hir.Env(gm["hir"], F)
+    gsym = hir.Sym(genv, F)
+    gbody = gm["hir"]["body"]
+    clos = []
+    for n, anc in hir.walk(gbody):
+        if n.get("k") == "SLet" and n["pat"].get("k") == "PBind" and n["pat"]["name"] == "push" and hir.strip(n["init"]).get("k") == "Closure":
+            clos.append(hir.strip(n["init"]))
+    ok = len(clos) == 1
+    found = None
+    if ok:
+        clo = clos[0]
+        params = [nm for p in clo["params"] for nm in hir.pat_names(p)]
+        calls = [c for c, _ in hir.walk(clo["body"]) if c.get("k") == "MethodCall" and c["name"] in ("push", "try_push", "push_unchecked")]
+        branches = [c for c, _ in hir.walk(clo["body"]) if c.get("k") in ("If", "Match", "Loop", "Ret") and not c.get("mac")]
+        ok = len(calls) == 1 and not branches and hir.strip(calls[0]["recv"]).get("to", {}).get("name") == "moves" and \
+            gsym(calls[0]["args"][0]) == ("var", params[0])
+        found = {"appends": len(calls), "branches": len(branches)}
+    ctx.check("C01.G9", "collector-appends-every-generated-move", ok, fn=FILTER, file=gm["file"],
+              what="the closure that collects generated moves must append each one unconditionally", found=found)
+    # clear first; early return only without a king of the mover
+    sts = hir.strip(gbody).get("stmts") or []
+    first = hir.strip(sts[0]) if sts else {}
+    cleared = first.get("k") == "MethodCall" and first["name"] == "clear" and hir.strip(first["recv"]).get("to", {}).get("name") == "moves"
+    rets = [n for n, _ in hir.walk(gbody) if n.get("k") == "Ret"]
+    rg = [[(hir.fmt(x[1], 80), x[2]) for x in (hir.guards_of(r, gbody, gsym) or []) if x[0] == "if"] for r in rets]
+    ok = cleared and rg == [[("!Game::king_exists(self, self.current_player)", True)]]
+    ctx.check("C01.G9", "list-cleared-and-empty-only-without-own-king", ok, fn=FILTER, file=gm["file"],
+              what="get_moves must start from an empty list and may return early (no moves) only when the mover has no king", found=rg)
+    ke = F.fn("chess::Game::king_exists")
+    nf = hir.summarize(ke, F) if True else None
+    want = "<T>::is_some_and(Game::get_position(self, Game::get_king_position(self, player)), |piece| (piece.piece_type == PieceType::King))"
+    ctx.check("C01.G9", "king_exists", hir.fmt(nf, 300) == want, fn=ke["path"], file=ke["file"], line=ke["span"][0],
+              what="king_exists(player) must say whether the cached king square of that player holds a king", expected=want,
+              found=hir.fmt(nf, 300))
